@@ -10,6 +10,10 @@ package main
 //	                                                of range / fuel exhausted)
 //	scenario/config/decode.go SpreadNames         -> `spreadEmpty`, `spreadSingle`, `spreadEffWeight`, `spreadCnt`, `spreadTotalStep`
 //	                                                (the arithmetic of the function; the loops themselves are fixed shapes)
+//	scenario/http/decode.go decodeAmmo            -> `weightRefused w` (the condition under which a scenario weight is an error)
+//	guns/http_scenario/gun.go                     -> `emptyTag` (const EmptyTag), `stepTagSep` (tag := ammo.Name + sep + req.Name in shoot),
+//	                                                `failCode` (reportErr: SetProtoCode(k)), `failTagged` (reportErr adds EmptyTag, sets the error, reports)
+//	core/aggregator/netsample/sample.go AddTag    -> `tagSep` (s.tags += sep + tag)
 //
 // Reading of Go used here (trusted, see notes/C15.md):
 //
@@ -890,13 +894,142 @@ func (x *c15scenX) spreadNames(fd *ast.FuncDecl) string {
 	return x.fail(fd, "SpreadNames does not end in `return %s, %s`", names, total)
 }
 
+// ---------------------------------------------------------------- constants of the failed sample, weight check
+
+func (x *c15scenX) strConst(e ast.Expr) (string, bool) {
+	if tv, ok := x.pkg.TypesInfo.Types[e]; ok && tv.Value != nil && tv.Value.Kind() == constant.String {
+		return constant.StringVal(tv.Value), true
+	}
+	return "", false
+}
+
+// gunConsts: EmptyTag, the separator in `tag := ammo.Name + "." + req.Name`, what reportErr does to the sample.
+func (x *c15scenX) gunConsts(shoot, reportErr *ast.FuncDecl) string {
+	var b strings.Builder
+	x.ctx = "gun.go"
+	obj := x.pkg.Types.Scope().Lookup("EmptyTag")
+	c, ok := obj.(*types.Const)
+	if !ok || c.Val().Kind() != constant.String {
+		return x.fail(shoot, "const EmptyTag not found")
+	}
+	fmt.Fprintf(&b, "/-- regenerated from `components/guns/http_scenario/gun.go` const `EmptyTag` -/\ndef emptyTag : String := %q\n\n", constant.StringVal(c.Val()))
+	// tag := ammo.Name + sep + req.Name
+	sep, found := "", false
+	ast.Inspect(shoot.Body, func(n ast.Node) bool {
+		as, ok := n.(*ast.AssignStmt)
+		if !ok || len(as.Lhs) != 1 || len(as.Rhs) != 1 || x.src(as.Lhs[0]) != "tag" {
+			return true
+		}
+		if be, ok := as.Rhs[0].(*ast.BinaryExpr); ok && be.Op == token.ADD {
+			if l, ok := be.X.(*ast.BinaryExpr); ok && l.Op == token.ADD && x.src(l.X) == "ammo.Name" && x.src(be.Y) == "req.Name" {
+				if sv, ok := x.strConst(l.Y); ok {
+					sep, found = sv, true
+				}
+			}
+		}
+		return true
+	})
+	if !found {
+		return x.fail(shoot, "`tag := ammo.Name + sep + req.Name` not found in shoot")
+	}
+	fmt.Fprintf(&b, "/-- regenerated from `shoot`: `tag := ammo.Name + %q + req.Name` -/\ndef stepTagSep : String := %q\n\n", sep, sep)
+	// reportErr
+	x.ctx = "reportErr"
+	code := ""
+	addsEmpty, setsErr, reports := false, false, false
+	for _, s := range reportErr.Body.List {
+		switch v := s.(type) {
+		case *ast.IfStmt: // if err == nil { return }
+			if x.src(v.Cond) == "err == nil" && len(v.Body.List) == 1 && v.Else == nil {
+				if r, ok := v.Body.List[0].(*ast.ReturnStmt); ok && len(r.Results) == 0 {
+					continue
+				}
+			}
+		case *ast.ExprStmt:
+			call, ok := v.X.(*ast.CallExpr)
+			if !ok {
+				break
+			}
+			switch fn := x.src(call.Fun); {
+			case fn == "sample.AddTag" && len(call.Args) == 1 && x.src(call.Args[0]) == "EmptyTag" && !reports:
+				addsEmpty = true
+				continue
+			case fn == "sample.SetProtoCode" && len(call.Args) == 1 && !reports:
+				if tv, ok := x.pkg.TypesInfo.Types[call.Args[0]]; ok && tv.Value != nil && tv.Value.Kind() == constant.Int {
+					code = tv.Value.ExactString()
+					continue
+				}
+			case fn == "sample.SetErr" && len(call.Args) == 1 && x.src(call.Args[0]) == "err" && !reports:
+				setsErr = true
+				continue
+			case strings.HasSuffix(fn, ".Aggregator.Report") && len(call.Args) == 1 && x.src(call.Args[0]) == "sample":
+				reports = true
+				continue
+			}
+		}
+		return x.fail(s, "statement of reportErr: %s", x.src(s))
+	}
+	if code == "" {
+		return x.fail(reportErr, "reportErr does not set a constant proto code")
+	}
+	fmt.Fprintf(&b, "/-- regenerated from `reportErr`: `sample.SetProtoCode(%s)` -/\ndef failCode : Int := %s\n\n", code, code)
+	fmt.Fprintf(&b, "/-- regenerated from `reportErr`: the sample gets the tag `EmptyTag`, carries the error and is reported -/\ndef failTagged : Bool := %v\n\n", addsEmpty && setsErr && reports)
+	return b.String()
+}
+
+func (x *c15scenX) tagSep(addTag *ast.FuncDecl) string {
+	x.ctx = "Sample.AddTag"
+	// if s.tags == "" { s.tags = tag; return }; s.tags += sep + tag
+	if len(addTag.Body.List) == 2 {
+		if as, ok := addTag.Body.List[1].(*ast.AssignStmt); ok && as.Tok == token.ADD_ASSIGN && len(as.Rhs) == 1 {
+			if be, ok := as.Rhs[0].(*ast.BinaryExpr); ok && be.Op == token.ADD && x.src(be.Y) == "tag" {
+				if sv, ok := x.strConst(be.X); ok {
+					if is, ok := addTag.Body.List[0].(*ast.IfStmt); ok && x.src(is.Cond) == `s.tags == ""` {
+						return fmt.Sprintf("/-- regenerated from `core/aggregator/netsample/sample.go` `AddTag`: `s.tags += %q + tag` (a first tag is stored as it is) -/\ndef tagSep : String := %q\n", sv, sv)
+					}
+				}
+			}
+		}
+	}
+	return x.fail(addTag, "AddTag shape")
+}
+
+// weightRefused: `if sc.Weight < 0 { return nil, fmt.Errorf(...) }` in the registry loop of decodeAmmo
+func (x *c15scenX) weightRefused(fd *ast.FuncDecl) string {
+	x.ctx = "decodeAmmo"
+	out := ""
+	n := 0
+	ast.Inspect(fd.Body, func(nd ast.Node) bool {
+		is, ok := nd.(*ast.IfStmt)
+		if !ok || is.Init != nil || is.Else != nil || !strings.Contains(x.src(is.Cond), ".Weight") || len(is.Body.List) != 1 {
+			return true
+		}
+		r, ok := is.Body.List[0].(*ast.ReturnStmt)
+		if !ok || len(r.Results) != 2 || x.src(r.Results[0]) != "nil" || x.src(r.Results[1]) == "nil" {
+			return true
+		}
+		x.vars = map[string]string{"sc.Weight": "w"}
+		out = x.expr(is.Cond, nil)
+		x.vars = nil
+		n++
+		return true
+	})
+	if n != 1 {
+		return x.fail(fd, "expected exactly one `if <cond on sc.Weight> { return nil, err }`, found %d", n)
+	}
+	return fmt.Sprintf("/-- regenerated from `components/providers/scenario/http/decode.go` `decodeAmmo`: when a weight is refused -/\ndef weightRefused (w : Int) : Prop := %s\n\ninstance (w : Int) : Decidable (weightRefused w) := by unfold weightRefused; exact inferInstance\n", out)
+}
+
 func c15scenExtra(t *tr) string {
 	const (
 		pMath = "github.com/yandex/pandora/lib/math"
 		pMp   = "github.com/yandex/pandora/lib/mp"
 		pCfg  = "github.com/yandex/pandora/components/providers/scenario/config"
+		pDec  = "github.com/yandex/pandora/components/providers/scenario/http"
+		pGun  = "github.com/yandex/pandora/components/guns/http_scenario"
+		pSmp  = "github.com/yandex/pandora/core/aggregator/netsample"
 	)
-	pk := c15scenLoad(pMath, pMp, pCfg)
+	pk := c15scenLoad(pMath, pMp, pCfg, pDec, pGun, pSmp)
 	var b strings.Builder
 	b.WriteString("open Pandora.Model.C15\n\n")
 	b.WriteString("/-- `xs[i]`; `none` = index out of range (the Go code panics) -/\ndef idx? (xs : List Int) (i : Int) : Option Int := if 0 ≤ i then xs[i.toNat]? else none\n\n")
@@ -925,6 +1058,19 @@ func c15scenExtra(t *tr) string {
 	}
 	if fd := need(pk[pMp], "", "calcIndex"); fd != nil {
 		b.WriteString(xp.nextIndex(fd) + "\n")
+	}
+	xd := &c15scenX{t: t, pkg: pk[pDec], calls: map[string]string{}}
+	if fd := need(pk[pDec], "", "decodeAmmo"); fd != nil {
+		b.WriteString(xd.weightRefused(fd) + "\n")
+	}
+	xg := &c15scenX{t: t, pkg: pk[pGun], calls: map[string]string{}}
+	sh, re := need(pk[pGun], "ScenarioGun", "shoot"), need(pk[pGun], "ScenarioGun", "reportErr")
+	if sh != nil && re != nil {
+		b.WriteString(xg.gunConsts(sh, re))
+	}
+	xs := &c15scenX{t: t, pkg: pk[pSmp], calls: map[string]string{}}
+	if fd := need(pk[pSmp], "Sample", "AddTag"); fd != nil {
+		b.WriteString(xs.tagSep(fd) + "\n")
 	}
 	return b.String()
 }
